@@ -5,7 +5,7 @@ CONSTANTS
   AmpsL <- Amps2
   Pin = 4
   Mutant = "none"
-  ExemptKnown = TRUE
+  PreFix = FALSE
   Emit = FALSE
 INVARIANT RouteGivesDense
 INVARIANT RdmGivesDense
